@@ -670,6 +670,75 @@ schedule_impl!(sched_16_32_10_16, u16, u32, 10, 16);
 schedule_impl!(sched_16_32_12_16, u16, u32, 12, 16);
 schedule_impl!(sched_16_32_16_8, u16, u32, 16, 8);
 
+/// the batch / reverse / fallible / iid forms of the chain coder equal the per-symbol loop (symbols decoded,
+/// complete coder state, and the data restored by the batch encoders)
+fn batch_forms_chain(report: &Report, total: &mut Stats) {
+    type CC = ChainCoder<u8, u16, Vec<u8>, Vec<u8>, 2>;
+    let few8: Vec<u8> = vec![0x00, 0x01, 0x80, 0xff, 0x5a];
+    let letters = all_pairs(2);
+    let seqs = model_seqs(&letters, 3);
+    let datas: Vec<Vec<u8>> = (2..=4).flat_map(|len| all_words(&few8, len)).collect();
+    let part = |l: &Letter| Part::<u8, 2> { c: l.c as u8, p: l.p as u8 };
+    let raw = |l: &Letter, k: u8| { let (c, p) = part_interval(2, l.c, l.p, k); Raw::<u8, 2> { c: c as u8, p: p as u8 } };
+    let st = datas.par_iter().map(|d| {
+        let mut st = Stats::default();
+        let Ok(base) = CC::from_binary(d.clone()) else { return st };
+        for s in &seqs {
+            // reference: per-symbol loop
+            let mut a = base.clone();
+            let mut syms: Vec<u8> = vec![];
+            let mut ok = true;
+            for l in s { match a.decode_symbol(part(l)) { Ok(k) => syms.push(k), Err(_) => { ok = false; break; } } }
+            if !ok { st.out_of_data += 1; continue; }
+            st.cases += 1;
+            let want_state = a.clone().verif_into_raw_parts();
+            let fail = |st: &mut Stats, what: &str, detail: String| st.bad.push((format!("ChainCoder::{what} | differs from the per-symbol loop"), format!("ChainCoder<u8,u16,P=2>: data {:x?} models {:?}: {detail}", d, s)));
+            // decode forms
+            {
+                let mut b = base.clone();
+                let got: Vec<Option<u8>> = b.decode_symbols(s.iter().map(|l| part(l))).map(|r| r.ok()).collect();
+                if got != syms.iter().map(|&k| Some(k)).collect::<Vec<_>>() || b.verif_into_raw_parts() != want_state { fail(&mut st, "decode_symbols", format!("{:?} vs {:?}", got, syms)); }
+                let mut b = base.clone();
+                let got: Vec<Option<u8>> = b.try_decode_symbols(s.iter().map(|l| Ok::<_, ()>(part(l)))).map(|r| r.ok()).collect();
+                if got != syms.iter().map(|&k| Some(k)).collect::<Vec<_>>() || b.verif_into_raw_parts() != want_state { fail(&mut st, "try_decode_symbols", format!("{:?} vs {:?}", got, syms)); }
+                if s.iter().all(|l| l == &s[0]) {
+                    let mut b = base.clone();
+                    let m = part(&s[0]);
+                    let got: Vec<Option<u8>> = b.decode_iid_symbols(s.len(), &m).map(|r| r.ok()).collect();
+                    if got != syms.iter().map(|&k| Some(k)).collect::<Vec<_>>() || b.verif_into_raw_parts() != want_state { fail(&mut st, "decode_iid_symbols", format!("{:?} vs {:?}", got, syms)); }
+                }
+                st.steps += 3;
+            }
+            // encode forms, starting from the decoded coder: all must restore the loaded coder
+            let want_back = base.clone().verif_into_raw_parts();
+            let pairs: Vec<((), Raw<u8, 2>)> = s.iter().zip(&syms).map(|(l, &k)| ((), raw(l, k))).collect();
+            {
+                let mut b = a.clone();
+                let r = b.encode_symbols_reverse(pairs.clone());
+                if r.is_err() || b.verif_into_raw_parts() != want_back { fail(&mut st, "encode_symbols_reverse", format!("{:?}", r.is_ok())); }
+                let mut b = a.clone();
+                let r = b.try_encode_symbols_reverse(pairs.iter().cloned().map(Ok::<_, ()>).collect::<Vec<_>>());
+                if r.is_err() || b.verif_into_raw_parts() != want_back { fail(&mut st, "try_encode_symbols_reverse", format!("{:?}", r.is_ok())); }
+                let mut b = a.clone();
+                let r = b.encode_symbols(pairs.iter().rev().cloned());
+                if r.is_err() || b.verif_into_raw_parts() != want_back { fail(&mut st, "encode_symbols", format!("{:?}", r.is_ok())); }
+                if pairs.iter().all(|p| p.1 == pairs[0].1) {
+                    let mut b = a.clone();
+                    let r = b.encode_iid_symbols_reverse(pairs.iter().map(|p| p.0), pairs[0].1);
+                    if r.is_err() || b.verif_into_raw_parts() != want_back { fail(&mut st, "encode_iid_symbols_reverse", format!("{:?}", r.is_ok())); }
+                }
+                st.steps += 4;
+                st.continuations += 1;
+            }
+            if st.bad.len() > 20 { break; }
+        }
+        st
+    }).reduce(Stats::default, |mut a, b| { a.merge(b); a });
+    report.section(json!({"part": "batch / reverse / fallible / iid forms of the chain coder vs the per-symbol loop", "coder": "ChainCoder<u8,u16,P=2>", "data_strings": datas.len(), "model_sequences": seqs.len(), "cases": st.cases}));
+    report.count("chain_batch_form_cases", st.cases);
+    total.merge(st);
+}
+
 /// the precision-schedule runs (shared by C13: restoration, and C14: chunk locality under a schedule)
 fn run_schedules(report: &Report, total: &mut Stats, q: bool) {
     let few8: Vec<u8> = vec![0x00, 0x01, 0x80, 0xff, 0x5a];
@@ -876,6 +945,7 @@ pub fn run(report: &Report) {
         run_restore!(report, total, c32_64_24, u32, all_words(&few32, len), 24, 3, format!("strings over 5 boundary words of length {len}"));
     }
     run_schedules(report, &mut total, q);
+    batch_forms_chain(report, &mut total);
     single_step_part(report, &mut total, q);
     finish(report, total, false);
 }
